@@ -2,6 +2,8 @@
 
    new ty=sv|ipv|stk cap=<n> kind=int|nt     four empty objects of that type
    api_bits / api_assign ty=… cap=… kind=…    static facts (size-type width; assignability)
+   api_member ty=… cap=… kind=… member=<op> args…   does the type offer the member behind operation <op>?
+                                              model: `supports`, spec: `Spec.offers` (what the std type has)
    <op> [obj=k] [other=j] args…               one operation on object k (default 0)
 
    Output of an operation: `<result>;<obj0>;<obj1>;<obj2>;<obj3>` with
@@ -62,13 +64,13 @@ def parseKind (l : Line) : Option Kind :=
   | some "nt" => some .nt
   | _ => none
 
-def parseOp (l : Line) : Option Op :=
+def parseOpNamed (name : String) (l : Line) : Option Op :=
   let x := l.nat? "x"
   let pos := l.nat? "pos"
   let n := l.nat? "n"
   let xs := l.natList? "xs"
   let j := l.nat? "other"
-  match l.op with
+  match name with
   | "push" => x.map (Op.push 0)
   | "push_rv" => x.map (Op.push 1)
   | "emplace_back" => x.map (Op.push 2)
@@ -107,6 +109,8 @@ def parseOp (l : Line) : Option Op :=
   | "dump" => some .dump
   | _ => none
 
+def parseOp (l : Line) : Option Op := parseOpNamed l.op l
+
 /-- static facts of the type as the model sees them (after the repairs of branch fix-c01):
     width of the stored size, copy and move assignability -/
 def apiModel (ty : Ty) (cap : Nat) : String :=
@@ -144,13 +148,22 @@ def step (st : St) (l : Line) : St × String :=
     match parseTy l, l.nat? "cap", parseKind l with
     | some ty, some cap, some _ => (st, apiAssignModel ty ++ "\t" ++ apiSpec ty cap)
     | _, _, _ => bad
+  | "api_member" =>
+    match parseTy l, l.nat? "cap", parseKind l, (l.str? "member").bind (fun m => parseOpNamed m l) with
+    | some ty, some cap, some _, some op =>
+      let extra := ty == .ipv && ipvZeroExtra cap ((l.str? "member").getD "")
+      (st, s!"has={fmtBool (supports ty op || extra)}\thas={fmtBool (Spec.offers ty op)}")
+    | _, _, _, _ => bad
   | _ =>
     if st.poisoned then (st, "invalid\tinvalid") else
     match st.sys, parseOp l with
     | some (s, sp), some op =>
       let k := (l.nat? "obj").getD 0
-      -- a line that violates a documented precondition executes nothing on any side
-      if !valid s k op then (st, "invalid\tinvalid") else
+      -- a line that violates a documented precondition executes nothing on any side.  Validity is judged on
+      -- the spec state (`Spec.valid`, the hypothesis of `history_refines`); `valid_of_spec` proves that the
+      -- model-state precondition follows, it is evaluated as well so that a disagreement would be visible
+      if !Spec.valid s.ty sp k op then (st, "invalid\tinvalid") else
+      if !valid s k op then (st, "err:spec-valid but not model-valid\t*") else
       let r := Spec.step sp k op
       let specStr := match r.2, fmtSpecSys sp.cap r.1.objs with
         | some o, some str => fmtOut o ++ ";" ++ str
